@@ -8,6 +8,7 @@ import (
 	"fmt"
 	"strings"
 	"testing"
+	"time"
 
 	"github.com/pilosa/pilosa/internal/vx"
 )
@@ -31,8 +32,41 @@ type c04Case struct {
 }
 
 type c04W struct {
-	c     *vx.Check
-	evals int64
+	c       *vx.Check
+	evals   int64
+	scratch []byte
+	staged  int
+}
+
+// The decoders view container payloads through unsafe casts; a mis-parsed header makes them read — and,
+// for official run containers, WRITE — up to 65535*4+2 bytes past the end of the input. So that such a
+// defect cannot corrupt the harness' own heap (and its verdicts), every input is staged at the front of a
+// per-worker zeroed scratch area; the zone behind the input is checked (and re-zeroed) after each decode.
+const c04Pad = 272 << 10
+
+var c04Zero = make([]byte, c04Pad)
+
+func (w *c04W) stage(data []byte) []byte {
+	if len(w.scratch) < len(data)+c04Pad {
+		w.scratch = make([]byte, len(data)+c04Pad+(1<<20))
+		w.staged = 0
+	}
+	for i := len(data); i < w.staged; i++ { // remains of a longer previous input
+		w.scratch[i] = 0
+	}
+	w.staged = len(data)
+	copy(w.scratch, data)
+	return w.scratch[:len(data):len(data)]
+}
+
+// tailDirty reports (and repairs) writes behind the staged input of length n.
+func (w *c04W) tailDirty(n int) bool {
+	t := w.scratch[n : n+c04Pad]
+	if bytes.Equal(t, c04Zero) {
+		return false
+	}
+	copy(t, c04Zero)
+	return true
 }
 
 func (w *c04W) flush() { w.c.AddEval(w.evals); w.evals = 0 }
@@ -49,19 +83,40 @@ func c04RunStr(run []bool) string {
 	return sb.String()
 }
 
+// c04Read lists the bitmap through the public iterator, stopping a little after the expected size: a
+// mis-decoded bitmap can describe billions of garbage values and must not be materialised.
+func c04Read(b *Bitmap, expect int) []uint64 {
+	out := make([]uint64, 0, expect+8)
+	it := b.Iterator()
+	it.Seek(0)
+	for len(out) < expect+8 {
+		v, eof := it.Next()
+		if eof {
+			break
+		}
+		out = append(out, v)
+	}
+	return out
+}
+
 // c04Decode1 decodes e.data into a fresh bitmap of the kind and reports the first discrepancy.
 func c04Decode1(w *c04W, kind int, e *c04Enc) (how, got, exp string) {
 	w.evals++
-	pristine := append([]byte(nil), e.data...)
+	pristine := e.data
+	data := w.stage(e.data)
 	b := c04NewKind(kind)
 	var err error
 	var g []uint64
 	var n uint64
-	if p := vx.Guard(func() {
-		if err = b.UnmarshalBinary(e.data); err == nil {
-			g, n = b.Slice(), b.Count()
+	p := vx.Guard(func() {
+		if err = b.UnmarshalBinary(data); err == nil {
+			g, n = c04Read(b, len(e.want)), b.Count()
 		}
-	}); p != "" {
+	})
+	if w.tailDirty(len(data)) {
+		return "writes-past-end-of-input", "memory behind the input buffer was modified by the decoder", "untouched"
+	}
+	if p != "" {
 		return "panic", p, "no panic"
 	}
 	if err != nil {
@@ -76,26 +131,27 @@ func c04Decode1(w *c04W, kind int, e *c04Enc) (how, got, exp string) {
 	if b.Flags != e.flags {
 		return "wrong-flags", fmt.Sprint(b.Flags), fmt.Sprint(e.flags)
 	}
-	if !bytes.Equal(e.data, pristine) {
+	if !bytes.Equal(data, pristine) {
 		// second decode of the (now modified) caller's bytes
 		b2 := c04NewKind(kind)
 		var g2 []uint64
 		p := vx.Guard(func() {
-			if err = b2.UnmarshalBinary(e.data); err == nil {
-				g2 = b2.Slice()
+			if err = b2.UnmarshalBinary(data); err == nil {
+				g2 = c04Read(b2, len(e.want))
 			}
 		})
-		copy(e.data, pristine)
+		w.tailDirty(len(data))
 		return "input-bytes-modified", fmt.Sprintf("buffer differs after decoding; decoding the same buffer again gives %s %v %s", c04Fmt(g2), err, p), "buffer unchanged; second decode " + c04Fmt(e.want)
 	}
 	// decoding the same bytes twice gives the same set
 	b2 := c04NewKind(kind)
 	var g2 []uint64
 	if p := vx.Guard(func() {
-		if err = b2.UnmarshalBinary(e.data); err == nil {
-			g2 = b2.Slice()
+		if err = b2.UnmarshalBinary(data); err == nil {
+			g2 = c04Read(b2, len(e.want))
 		}
 	}); p != "" || err != nil || !c04Eq(g2, e.want) {
+		w.tailDirty(len(data))
 		return "second-decode-differs", fmt.Sprint(c04Fmt(g2), err, p), c04Fmt(e.want)
 	}
 	return "", "", ""
@@ -104,7 +160,8 @@ func c04Decode1(w *c04W, kind int, e *c04Enc) (how, got, exp string) {
 // c04Import1 imports e.data into a target built from tcs and compares with union/difference.
 func c04Import1(w *c04W, kind int, tcs []c04Cont, mapped bool, e *c04Enc, clear bool, rowSize uint64) (how, got, exp string) {
 	w.evals++
-	pristine := append([]byte(nil), e.data...)
+	pristine := e.data
+	data := w.stage(e.data)
 	t := c04Build(kind, tcs)
 	if mapped {
 		d, err := c04EncodePilosa(t, false)
@@ -139,10 +196,14 @@ func c04Import1(w *c04W, kind int, tcs []c04Cont, mapped bool, e *c04Enc, clear 
 	var err error
 	var g []uint64
 	var n uint64
-	if p := vx.Guard(func() {
-		changed, rows, err = t.ImportRoaringBits(e.data, clear, false, rowSize)
-		g, n = t.Slice(), t.Count()
-	}); p != "" {
+	p := vx.Guard(func() {
+		changed, rows, err = t.ImportRoaringBits(data, clear, false, rowSize)
+		g, n = c04Read(t, len(x)), t.Count()
+	})
+	if w.tailDirty(len(data)) {
+		return "writes-past-end-of-input", "memory behind the payload was modified by the import", "untouched"
+	}
+	if p != "" {
 		return "panic", p, "no panic"
 	}
 	if err != nil {
@@ -160,8 +221,7 @@ func c04Import1(w *c04W, kind int, tcs []c04Cont, mapped bool, e *c04Enc, clear 
 	if gs, xs := c04SortedKeys(rows), c04SortedKeys(xrows); gs != xs {
 		return "wrong-row-deltas", gs, xs
 	}
-	if !bytes.Equal(e.data, pristine) {
-		copy(e.data, pristine)
+	if !bytes.Equal(data, pristine) {
 		return "input-bytes-modified", "payload differs after import", "payload unchanged"
 	}
 	return "", "", ""
@@ -202,11 +262,14 @@ func c04Trigger(e *c04Enc, how string, again func(*c04Enc) string) string {
 		}
 		return &c04Enc{format: f, data: c04EncodeOfficial(cs, run), want: c04Want(cs), cs: cs, run: run}
 	}
+	// a counterfactual "passes" for attribution when it is clean or only shows the separate in-place
+	// conversion of run containers (trigger c)
+	pass := func(h string) bool { return h == "" || h == "input-bytes-modified" }
 	fixCard := func(cs []c04Cont, run []bool) []c04Cont {
 		out := append([]c04Cont(nil), cs...)
 		for i := range out {
 			if len(out[i].sh.vals) == 4096 && !(len(run) > i && run[i]) {
-				out[i].sh = &c04Shape{out[i].sh.name + "-minus-last", out[i].sh.vals[:4095]}
+				out[i].sh = &c04Shape{name: out[i].sh.name + "-minus-last", vals: out[i].sh.vals[:4095]}
 			}
 		}
 		return out
@@ -218,13 +281,13 @@ func c04Trigger(e *c04Enc, how string, again func(*c04Enc) string) string {
 		if !c04AnyRun(run) {
 			run[0] = true // keep the run cookie
 		}
-		if again(mk(fixCard(e.cs[:3], run), run)) == "" {
+		if pass(again(mk(fixCard(e.cs[:3], run), run))) {
 			return " trigger=run-cookie-with->=4-containers(offset-header)"
 		}
 		return ""
 	}
 	// (b) a non-run container with exactly 4096 values (an array in the official format)
-	if c04HasCard4096(e) && again(mk(fixCard(e.cs, e.run), e.run)) == "" {
+	if c04HasCard4096(e) && pass(again(mk(fixCard(e.cs, e.run), e.run))) {
 		return " trigger=array-container-with-exactly-4096-values"
 	}
 	// (c) run containers with more than 2 runs (stored out of line, converted in place)
@@ -347,6 +410,11 @@ func TestVerif_C04(t *testing.T) {
 	fam := c04Families()
 	keys := []uint64{0, 1, 65535, 65536, maxContainerKey}
 
+	t0 := time.Now()
+	lap := func(name string) {
+		fmt.Printf("INFO C04 part %s: %.1fs, evaluations so far %d, expired=%v\n", name, time.Since(t0).Seconds(), c.Evaluations, c.Expired())
+		t0 = time.Now()
+	}
 	// (1) single-container bitmaps
 	single := append(append([]*c04Shape{}, masks...), fam...)
 	vx.ParallelFor(len(single), func(i int) {
@@ -382,11 +450,12 @@ func TestVerif_C04(t *testing.T) {
 		w.flush()
 	})
 
+	lap("single")
 	// (2) multi-container bitmaps: every assignment of shapes to 1..N containers, every run pattern
 	mshapes := []*c04Shape{
-		{"{0}", []uint16{0}},
-		{"{0,2,4,6}", []uint16{0, 2, 4, 6}},
-		{"{5..9,65535}", []uint16{5, 6, 7, 8, 9, 65535}},
+		{name: "{0}", vals: []uint16{0}},
+		{name: "{0,2,4,6}", vals: []uint16{0, 2, 4, 6}},
+		{name: "{5..9,65535}", vals: []uint16{5, 6, 7, 8, 9, 65535}},
 		c04ByName(fam, "stride2-N4096"),
 		c04ByName(fam, "full"),
 	}
@@ -394,7 +463,7 @@ func TestVerif_C04(t *testing.T) {
 		mshapes = append(mshapes, c04ByName(fam, "stride2-N4095"), c04ByName(fam, "stride2-N4097"))
 	}
 	mkeys := []uint64{0, 1, 5, 65534, 65535, 7}
-	maxN := c.Pick(5, 6)
+	maxN := c.Pick(4, 5)
 	c.Bound("multi_container_shapes", len(mshapes))
 	c.Bound("multi_container_max_count", maxN)
 	type job struct{ n, x int }
@@ -403,9 +472,6 @@ func TestVerif_C04(t *testing.T) {
 		tot := 1
 		for i := 0; i < n; i++ {
 			tot *= len(mshapes)
-		}
-		if n == 6 {
-			tot = tot / len(mshapes) * 2 // 6 containers: first shape restricted (cost)
 		}
 		for x := 0; x < tot; x++ {
 			jobs = append(jobs, job{n, x})
@@ -441,10 +507,11 @@ func TestVerif_C04(t *testing.T) {
 		w.flush()
 	})
 
+	lap("multi")
 	// (2b) 65,536 containers (every 16-bit key), and bitmaps whose container was emptied through the API
 	{
 		w := &c04W{c: c}
-		one, two := &c04Shape{"{7}", []uint16{7}}, &c04Shape{"{7,8,9}", []uint16{7, 8, 9}}
+		one, two := &c04Shape{name: "{7}", vals: []uint16{7}}, &c04Shape{name: "{7,8,9}", vals: []uint16{7, 8, 9}}
 		cs := make([]c04Cont, 65536)
 		for k := range cs {
 			cs[k] = c04Cont{key: uint64(k), sh: one, enc: k % 3}
@@ -480,7 +547,8 @@ func TestVerif_C04(t *testing.T) {
 				}
 				for k2 := 0; k2 < 2; k2++ {
 					if how, got, exp := c04Decode1(w, k2, e); how != "" {
-						c.Violate("roundtrip format=pilosa how="+how+" after=add-then-remove source="+c04KindName[kind],
+						_ = how
+						c.Violate("roundtrip format=pilosa after=add-then-remove source="+c04KindName[kind],
 							c04Case{Check: "roundtrip", Format: "pilosa", Bitmap: desc, Variant: "decoded into " + c04KindName[k2]}, got, exp)
 					}
 				}
@@ -490,11 +558,12 @@ func TestVerif_C04(t *testing.T) {
 		w.flush()
 	}
 
+	lap("65536+api")
 	// (3) imports: target family × payload family × formats
 	ishapes := []*c04Shape{
 		nil, // no container at the key
-		{"{0,1}", []uint16{0, 1}},
-		{"{1,2,3,4,5,6,65535}", []uint16{1, 2, 3, 4, 5, 6, 65535}},
+		{name: "{0,1}", vals: []uint16{0, 1}},
+		{name: "{1,2,3,4,5,6,65535}", vals: []uint16{1, 2, 3, 4, 5, 6, 65535}},
 		c04ByName(fam, "full"),
 		c04ByName(fam, "stride2-N4096"),
 	}
@@ -540,6 +609,7 @@ func TestVerif_C04(t *testing.T) {
 		w.flush()
 	})
 
+	lap("import")
 	c.Assume("official-format inputs are produced by the harness' reference encoder written from the RoaringFormatSpec (offset header with the run cookie iff >= 4 containers; array iff cardinality <= 4096); it is trusted code")
 	c.Assume("sets outside the boundary universe / threshold families are covered only by the small-scope argument")
 	if c.Finish() != 0 {
